@@ -18,6 +18,18 @@
 //                      negaScout(a, b, ply, depth) (shared transposition table, full strength) and
 //                      the returned score is printed; with hook H3 and TEXEL_VERIF_TRACE set the
 //                      nodes are traced like in the engine
+//   H fen | depth mode maxInject pollInterval
+//                      search with an EMULATED helper thread (cooperative scheduling): a second
+//                      Search object is attached to the main search through the engine's own
+//                      parent/child ThreadCommunicator (startSearch / reportResult, shared table),
+//                      like a WorkerThread; the helper finishes the current root-move job - and
+//                      the main thread receives HelperThreadResult at its next poll - at moments
+//                      chosen by the scheduler, one mode per class of transient per-ply state of
+//                      the main thread: mode 0 = while a singular-extension verification search is
+//                      in progress, mode 2 = while a null-move search or an ABDADA-exclusive child
+//                      is in progress, mode 1 = at every k-th poll (k = 3 + deliveries so far * 7).
+//                      At most maxInject deliveries.
+//                      Answer: "inject=<n> best=<move> ; depth cp|mate value bound pv0 ; ..."
 //   T                  clear the transposition table
 //   M fen              exact distance to mate of a pawnless position of <= 4 men from the engine's
 //                      own retrograde generator (TBGenerator<VectorStorage>, generated on first
@@ -90,6 +102,86 @@ static bool matedIn(Position& pos, int n) {      // side to move is mated within
     }
     return true;
 }
+
+// ---- emulated helper thread (request H) ----
+struct HClaim { int depth; int score; bool isMate, ub, lb; std::string pv0; };
+struct HListener : public Search::Listener {
+    std::vector<HClaim> claims;
+    void notifyDepth(int) override {}
+    void notifyCurrMove(const Move&, int) override {}
+    void notifyPV(int depth, int sc, S64, S64, S64, bool mate, bool u, bool l,
+                  const std::vector<Move>& pv, int, S64) override {
+        claims.push_back(HClaim{depth, sc, mate, u, l, pv.empty() ? std::string("-") : TextIO::moveToUCIString(pv[0])});
+    }
+    void notifyStats(S64, S64, int, S64, S64) override {}
+};
+struct HJob { bool valid = false; int jobId = -1; SearchTreeInfo sti; int alpha = 0, beta = 0, depth = 0; };
+struct HHandler : public Communicator::CommandHandler {
+    HJob job;
+    void startSearch(int jobId, const SearchTreeInfo& sti, int alpha, int beta, int depth) override {
+        job.valid = true; job.jobId = jobId; job.sti = sti; job.alpha = alpha; job.beta = beta; job.depth = depth;
+    }
+    virtual ~HHandler() = default;
+};
+struct HHelper {
+    Notifier notifier;
+    ThreadCommunicator comm;
+    KillerTable kt; History ht;
+    std::unique_ptr<Evaluate::EvalHashTables> et;
+    TreeLogger treeLog;
+    HHandler handler;
+    Position rootPos;
+    int lastDone = -1;
+    int nFinished = 0;
+    HHelper(Communicator& parent, TranspositionTable& tt, const Position& root)
+        : comm(&parent, tt, notifier, false), et(Evaluate::getEvalHashTables()), rootPos(root) {}
+    /** Search the most recently assigned root-move job to completion and report its result. */
+    bool finishCurrentJob() {
+        comm.poll(handler);
+        const HJob& job = handler.job;
+        if (!job.valid || job.jobId == lastDone)
+            return false;
+        lastDone = job.jobId;
+        Search::SearchTables st(comm.getCTT(), kt, ht, *et);
+        Position pos(rootPos);
+        std::vector<U64> hist(SearchConst::MAX_SEARCH_DEPTH * 4 + 16);
+        hist[0] = pos.zobristHash();
+        UndoInfo ui;
+        pos.makeMove(job.sti.currentMove, ui);
+        Search sc(pos, hist, 1, st, comm, treeLog);
+        sc.setThreadNo(1);
+        sc.initSearchTreeInfo();
+        sc.setMinProbeDepth(SearchConst::MAX_SEARCH_DEPTH);
+        sc.setSearchTreeInfo(0, job.sti, 0);
+        int score = sc.negaScout(true, job.alpha, job.beta, 1, job.depth, Square(-1), MoveGen::inCheck(pos));
+        comm.sendReportResult(job.jobId, score);
+        nFinished++;
+        return true;
+    }
+};
+/** The main thread's stop handler doubles as the scheduler of the emulated helper. */
+struct HScheduler : public Search::StopHandler {
+    Search& sc; HHelper& helper; int mode, maxInject; long polls = 0;
+    HScheduler(Search& s, HHelper& h, int m, int mi) : sc(s), helper(h), mode(m), maxInject(mi) {}
+    bool shouldStop() override {
+        polls++;
+        if (helper.nFinished < maxInject) {
+            bool now = false;
+            if (mode == 0 || mode == 2) {
+                for (int p = 1; p < 60 && !now; p++) {
+                    const SearchTreeInfo& s = sc.searchTreeInfo[p];
+                    if (mode == 0 ? !s.singularMove.isEmpty() : (!s.allowNullMove || s.abdadaExclusive))
+                        now = true;
+                }
+            } else {
+                now = (polls % (3 + helper.nFinished * 7)) == 0;
+            }
+            if (now)
+                helper.finishCurrentJob();
+        }
+        return sc.shouldStop();
+    }
+};
 
 struct CaptureListener : public Search::Listener {
     bool got = false; int score = 0; bool isMate = false, ub = false, lb = false;
@@ -264,6 +356,41 @@ int main() {
                 s2.setMinProbeDepth(SearchConst::MAX_SEARCH_DEPTH);   // as iterativeDeepening does without tablebases
                 int score = s2.negaScout(true, a, b, ply, depth, Square(-1), MoveGen::inCheck(pos));
                 std::cout << score << '\n';
+            } catch (const std::exception& e) {
+                std::cout << "ERR " << e.what() << '\n';
+            }
+        } else if (k == "H") {
+            std::string rest; std::getline(is, rest);
+            rest.erase(0, rest.find_first_not_of(' '));
+            size_t bar = rest.find('|');
+            try {
+                Position root = TextIO::readFEN(rest.substr(0, bar));
+                std::istringstream ps(rest.substr(bar + 1));
+                int depth, mode, maxInject, pollInterval; ps >> depth >> mode >> maxInject >> pollInterval;
+                Position pos(root);
+                std::vector<U64> hist(SearchConst::MAX_SEARCH_DEPTH * 4 + 16);
+                TranspositionTable tt2(1 << 18);
+                Notifier notifier2;
+                ThreadCommunicator comm2(nullptr, tt2, notifier2, false);
+                KillerTable kt2; History ht2;
+                auto et2 = Evaluate::getEvalHashTables();
+                Search::SearchTables st(comm2.getCTT(), kt2, ht2, *et2);
+                HHelper helper(comm2, tt2, root);
+                Search sc2(pos, hist, 0, st, comm2, treeLog);
+                HListener hl; sc2.setListener(hl);
+                sc2.setStopHandler(std::unique_ptr<Search::StopHandler>(new HScheduler(sc2, helper, mode, maxInject)));
+                sc2.nodesBetweenTimeCheck = pollInterval;
+                MoveList moves;
+                MoveGen::pseudoLegalMoves(pos, moves);
+                MoveGen::removeIllegal(pos, moves);
+                sc2.scoreMoveList(moves, 0);
+                sc2.timeLimit(-1, -1);
+                Move best = sc2.iterativeDeepening(moves, depth, -1, 1, false, SearchConst::MAX_SEARCH_DEPTH);
+                std::cout << "inject=" << helper.nFinished << " best=" << TextIO::moveToUCIString(best);
+                for (const HClaim& c : hl.claims)
+                    std::cout << " ; " << c.depth << ' ' << (c.isMate ? "mate" : "cp") << ' ' << c.score << ' '
+                              << (c.ub ? "upperbound" : c.lb ? "lowerbound" : "exact") << ' ' << c.pv0;
+                std::cout << '\n';
             } catch (const std::exception& e) {
                 std::cout << "ERR " << e.what() << '\n';
             }
